@@ -22,6 +22,7 @@ type ErrSpec struct {
 	//   wrap        fmt.Errorf("c16 backing: %w", e)                     (identity kept, text = prefix + ": " + text)
 	//   wrap2       fmt.Errorf("c16 outer: %w", fmt.Errorf("inner: %w", e))
 	//   prewrap     fmt.Errorf("%w: requested 7, current 3", e)          (identity kept, sentinel text first)
+	//   midwrap     fmt.Errorf("c16 outer: %w: tx 0xABC at height 7", e)  (identity kept, sentinel text in the middle)
 	//   sametext    errors.New(e.Error())                                (identity lost, text equal; what DummyDA does for "from the future")
 	//   look-prefix errors.New(e.Error() + " exceeded")                  (unrelated error, text merely starts with the sentinel's)
 	//   look-embed  errors.New("upstream said '" + e.Error() + "' and gave up")
@@ -74,6 +75,8 @@ func (s ErrSpec) build() error {
 		return fmt.Errorf("c16 outer: %w", fmt.Errorf("inner: %w", e))
 	case "prewrap":
 		return fmt.Errorf("%w: requested 7, current 3", e)
+	case "midwrap":
+		return fmt.Errorf("c16 outer: %w: tx 0xABC at height 7", e)
 	case "sametext":
 		return errors.New(e.Error())
 	case "look-prefix":
@@ -88,7 +91,9 @@ func (s ErrSpec) build() error {
 type Outcome struct {
 	// Kind: real (behave like an honest DA) | prefix (store only the first Prefix blobs, no error) |
 	// err (return Err) | block (block until the context is done, return ctx.Err()) |
-	// empty (GetIDs: non-nil result without ids, no error) | nil (GetIDs: nil result, no error)
+	// empty (GetIDs: non-nil result without ids, no error) | nil (GetIDs: nil result, no error) |
+	// discard (SubmitWithOptions: record what arrived, hand out one id per blob, store nothing and leave the
+	// height alone; used by the harness to ask the client what it would send without disturbing the world)
 	Kind   string   `json:"kind"`
 	Prefix int      `json:"prefix,omitempty"`
 	Err    *ErrSpec `json:"err,omitempty"`
@@ -114,13 +119,14 @@ type stored struct {
 
 // callRec is what a backing saw and answered for one call.
 type callRec struct {
-	Kind     string // submit | getids | get
+	Kind     string // submit | getids | get | getproofs | validate | commit | gasprice | gasmultiplier
 	Tag      string // submit: the options bytes
 	NS       string
 	GasPrice float64
 	Height   uint64 // getids: requested; submit: height stored at; get: height of the first id
 	Received [][]byte
-	GetIDs   [][]byte // get: the ids asked for
+	GetIDs   [][]byte // get, getproofs, validate: the ids asked for
+	Proofs   [][]byte // validate: the proofs given
 	Stored   int
 	IDs      [][]byte // submit: ids handed out
 	Err      error
@@ -158,6 +164,9 @@ type backing struct {
 	getIDs   map[uint64]Outcome // GetIDs outcome by height
 	getFail  *getFail
 	getCount map[uint64]int
+	method   map[string]Outcome // scripted failure of GetProofs / Validate / Commit / GasPrice / GasMultiplier
+	gasPrice float64
+	gasMult  float64
 	log      []callRec
 	entered  chan struct{}
 	exited   chan struct{}
@@ -174,6 +183,7 @@ var _ coreda.DA = (*backing)(nil)
 func newBacking(name string, cfg BackingCfg) *backing {
 	return &backing{name: name, cfg: cfg, byHeight: map[uint64][]stored{}, byID: map[string]stored{},
 		sub: map[string]Outcome{}, getIDs: map[uint64]Outcome{}, getCount: map[uint64]int{},
+		method: map[string]Outcome{}, gasPrice: 0.002, gasMult: 1.5,
 		entered: make(chan struct{}, 64), exited: make(chan struct{}, 64)}
 }
 
@@ -190,6 +200,23 @@ func (b *backing) scriptGetIDs(h uint64, o *Outcome) {
 	} else {
 		b.getIDs[h] = *o
 	}
+	b.mu.Unlock()
+}
+
+// scriptMethod scripts the answer of one of the remaining interface methods (nil = honest again).
+func (b *backing) scriptMethod(name string, o *Outcome) {
+	b.mu.Lock()
+	if o == nil {
+		delete(b.method, name)
+	} else {
+		b.method[name] = *o
+	}
+	b.mu.Unlock()
+}
+
+func (b *backing) setGas(price, mult float64) {
+	b.mu.Lock()
+	b.gasPrice, b.gasMult = price, mult
 	b.mu.Unlock()
 }
 
@@ -233,6 +260,13 @@ func (b *backing) image() map[uint64][]stored {
 		out[h] = append([]stored(nil), l...)
 	}
 	return out
+}
+
+func (b *backing) lookup(id []byte) (stored, bool) {
+	b.mu.Lock()
+	defer b.mu.Unlock()
+	st, ok := b.byID[string(id)]
+	return st, ok
 }
 
 func (b *backing) namespaces() map[string]int {
@@ -284,6 +318,15 @@ func (b *backing) SubmitWithOptions(ctx context.Context, blobs []coreda.Blob, ga
 	}
 	if o.Kind == "err" {
 		return fail(o.Err.build())
+	}
+	if o.Kind == "discard" {
+		ids := make([]coreda.ID, len(blobs))
+		for i := range blobs {
+			ids[i] = binary.LittleEndian.AppendUint64(binary.LittleEndian.AppendUint64(nil, 0), uint64(i))
+		}
+		rec.IDs = ids
+		b.log = append(b.log, rec)
+		return ids, nil
 	}
 	n := len(blobs)
 	if b.cfg.Limit > 0 {
@@ -352,7 +395,7 @@ func (b *backing) GetIDs(ctx context.Context, height uint64, ns []byte) (*coreda
 	if err := ctx.Err(); err != nil {
 		return fail(err)
 	}
-	ts := time.Unix(1_700_000_000+int64(height%1_000_000), 0).UTC()
+	ts := backingTime(height)
 	switch o.Kind {
 	case "err":
 		return fail(o.Err.build())
@@ -388,6 +431,19 @@ func (b *backing) GetIDs(ctx context.Context, height uint64, ns []byte) (*coreda
 	rec.IDs = ids
 	b.log = append(b.log, rec)
 	return &coreda.GetIDsResult{IDs: ids, Timestamp: ts}, nil
+}
+
+// backingTime is the time a backing reports for a height: sub-second precision, and a zone that is not
+// always UTC (the instant is what matters; real DA layers report whatever their node's clock library gives).
+func backingTime(height uint64) time.Time {
+	t := time.Unix(1_700_000_000+int64(height%1_000_000), int64((height*7919+123_456_789)%1_000_000_000))
+	switch height % 3 {
+	case 0:
+		return t.UTC()
+	case 1:
+		return t.In(time.FixedZone("c16+0530", 5*3600+1800))
+	}
+	return t.In(time.FixedZone("c16-0800", -8*3600))
 }
 
 var errFutureSameText = errors.New(coreda.ErrHeightFromFuture.Error())
@@ -434,36 +490,106 @@ func (b *backing) Get(ctx context.Context, ids []coreda.ID, ns []byte) ([]coreda
 	return out, nil
 }
 
+// methodEnter records a call of one of the remaining interface methods and applies its script.
+// It returns with b.mu held unless failed is true.
+func (b *backing) methodEnter(ctx context.Context, rec *callRec) (err error) {
+	b.mu.Lock()
+	if o, ok := b.method[rec.Kind]; ok && o.Kind == "err" {
+		rec.Outcome = o.String()
+		err = o.Err.build()
+	} else if e := ctx.Err(); e != nil {
+		err = e
+	}
+	if err != nil {
+		rec.Err = err
+		b.log = append(b.log, *rec)
+		b.mu.Unlock()
+	}
+	return err
+}
+
+func proofOf(st stored) []byte {
+	// independent of the namespace: the client replaces the caller's namespace by its own, so the two
+	// backings hold the same blobs under different namespaces
+	sum := sha256.Sum256(append([]byte("c16 proof|"), st.blob...))
+	return append(append([]byte("proof:"), st.id...), sum[:6]...)
+}
+
+var errNoProof = errors.New("c16 backing: no such blob in this namespace")
+
 func (b *backing) GetProofs(ctx context.Context, ids []coreda.ID, ns []byte) ([]coreda.Proof, error) {
+	rec := callRec{Kind: "getproofs", NS: string(ns), GetIDs: ids, Outcome: "real", Done: true}
+	if err := b.methodEnter(ctx, &rec); err != nil {
+		return nil, err
+	}
+	defer b.mu.Unlock()
 	out := make([]coreda.Proof, len(ids))
 	for i, id := range ids {
-		out[i] = append([]byte("proof:"), id...)
+		st, ok := b.byID[string(id)]
+		if !ok || st.ns != string(ns) {
+			rec.Err = errNoProof
+			b.log = append(b.log, rec)
+			return nil, errNoProof
+		}
+		out[i] = proofOf(st)
 	}
+	b.log = append(b.log, rec)
 	return out, nil
 }
 
 func (b *backing) Commit(ctx context.Context, blobs []coreda.Blob, ns []byte) ([]coreda.Commitment, error) {
+	rec := callRec{Kind: "commit", NS: string(ns), Received: blobs, Outcome: "real", Done: true}
+	if err := b.methodEnter(ctx, &rec); err != nil {
+		return nil, err
+	}
+	defer b.mu.Unlock()
 	out := make([]coreda.Commitment, len(blobs))
 	for i, bl := range blobs {
 		h := sha256.Sum256(bl)
 		out[i] = h[:]
 	}
+	b.log = append(b.log, rec)
 	return out, nil
 }
+
+var errValidateArgs = errors.New("c16 backing: number of ids and proofs differ")
 
 func (b *backing) Validate(ctx context.Context, ids []coreda.ID, proofs []coreda.Proof, ns []byte) ([]bool, error) {
+	rec := callRec{Kind: "validate", NS: string(ns), GetIDs: ids, Proofs: proofs, Outcome: "real", Done: true}
+	if err := b.methodEnter(ctx, &rec); err != nil {
+		return nil, err
+	}
+	defer b.mu.Unlock()
 	if len(ids) != len(proofs) {
-		return nil, errors.New("c16 backing: number of ids and proofs differ")
+		rec.Err = errValidateArgs
+		b.log = append(b.log, rec)
+		return nil, errValidateArgs
 	}
 	out := make([]bool, len(ids))
-	b.mu.Lock()
-	defer b.mu.Unlock()
 	for i, id := range ids {
-		_, ok := b.byID[string(id)]
-		out[i] = ok && string(proofs[i]) == "proof:"+string(id)
+		st, ok := b.byID[string(id)]
+		out[i] = ok && st.ns == string(ns) && string(proofs[i]) == string(proofOf(st))
 	}
+	b.log = append(b.log, rec)
 	return out, nil
 }
 
-func (b *backing) GasPrice(ctx context.Context) (float64, error)      { return 0.002, nil }
-func (b *backing) GasMultiplier(ctx context.Context) (float64, error) { return 1.5, nil }
+func (b *backing) GasPrice(ctx context.Context) (float64, error) {
+	rec := callRec{Kind: "gasprice", Outcome: "real", Done: true}
+	if err := b.methodEnter(ctx, &rec); err != nil {
+		return 0, err
+	}
+	defer b.mu.Unlock()
+	b.log = append(b.log, rec)
+	return b.gasPrice, nil
+}
+
+func (b *backing) GasMultiplier(ctx context.Context) (float64, error) {
+	rec := callRec{Kind: "gasmultiplier", Outcome: "real", Done: true}
+	if err := b.methodEnter(ctx, &rec); err != nil {
+		return 0, err
+	}
+	defer b.mu.Unlock()
+	b.log = append(b.log, rec)
+	return b.gasMult, nil
+}
